@@ -5,18 +5,35 @@ CONFIG = dict(
     engine="bubble (virtual clock), white-box shim added by go -overlay",
     technique="Lean 4 invariant proof over all event histories of a hand-written model of the scene manager + differential "
               "correspondence (acceptance for the two nondeterministic results) with the real scenem package + property monitor on its dumps",
-    level_text="Machine-checked proof in Lean 4 that, in the model of scenem's World/SceneLines/SceneServiceMgr, after every history of "
-               "create-success/end/refresh/clock/periodic-check/loss/alloc/request events in which no create-success names a live scene id "
-               "(proved for every history that confirms ids handed out by AllocScene at most once): scenes and lines are in bijection, line "
-               "numbers are strictly sorted hence unique, a new line takes the smallest free number (from 0), end/loss/periodic check remove "
-               "exactly the affected scenes and free exactly their lines (as order-preserving filters, for any visiting order), unknown ends "
-               "and repeated losses are no-ops, a request returns a live scene of the configuration or nothing for every random draw, and "
-               "AllocScene places only on a working service of minimal busy weight for every map order. The model is tied to the Go code on "
-               "every run by executing both on generated histories (3 configurations x 4 services, virtual keep-alive clock) and comparing the "
-               "full sorted state dump after every event; the property predicate is evaluated on the implementation's own dumps.",
-    level_note="Trusted: Lean kernel; harness/driver line protocol; the overlay shim (read-only accessors + direct calls of updateWorkingState/"
-               "onServiceLost); float32 busy weight abstracted to min(n,5000) (validated on every adjacent pair 0..5101 and sampled pairs each run); "
-               "Go map iteration and math/rand as arbitrary choices. The theorems are about the model; the differential run ties it to the code on sampled histories only.",
+    level_text="Machine-checked proof in Lean 4 about a model of scenem's World/SceneLines/SceneServiceMgr and, around it, of the manager as a "
+               "system (SpawnScene, the public-scene keeper's trySpawnScene, the remote AllocScene handler of handler/remote.go with its answer "
+               "to the client, the table of allocation requests in flight, the reply callback, the cluster view). (1) Manager level, for every history of create-success/end/refresh/clock/periodic-check/loss/alloc/request "
+               "events in which no create-success names a live scene id: scenes and lines are in bijection, line numbers are strictly sorted "
+               "hence unique, a new line takes the smallest free number (from 0), end/loss/periodic check remove exactly the affected scenes "
+               "and free exactly their lines (as order-preserving filters, for any visiting order), unknown ends and repeated losses are "
+               "no-ops, a request returns a live scene of the configuration or nothing for every random draw, AllocScene places only on a "
+               "working service of minimal busy weight for every map order. (2) System level, for EVERY history of cluster-view/SpawnScene/"
+               "keeper/handler/answer (known or unknown, ok or error)/end/refresh/clock/check/loss events, with no hypothesis on the history: the "
+               "hypothesis of (1) holds (sys_history_admissible: ids in flight are pairwise distinct, nonzero, below the counter and not "
+               "live), so all of (1) applies; a request answers nothing exactly when the configuration has no live scene; every live scene "
+               "and every request in flight was placed by a SpawnScene/keeper/handler event of the history at which its service was known, working "
+               "and of minimal weight, with the then current id counter (placement_over_histories); SpawnScene registers nothing, a failed/"
+               "unknown answer registers nothing, an answer is consumed at most once, a successful answer registers exactly the scene fixed "
+               "at allocation on the smallest free line; the keeper spawns only below the required number of confirmed lines; the handler places exactly like SpawnScene, tells "
+               "its client ok only through the answer that registers the scene, and stays silent (client never answered) exactly when no "
+               "service is working. Witness "
+               "theorems show what is NOT guaranteed: a late successful answer registers a scene on a service already declared lost; the "
+               "keeper overshoots with answers outstanding. The model is tied to the Go code on every run by executing both on generated "
+               "histories (configuration ids from five families incl. ids that coincide with line numbers / service numbers / scene ids, "
+               "4 services, virtual keep-alive clock, real SpawnScene/PublicScenes.Update/handler Entry.AllocScene + waterfall/app.Request/handleResponse) and comparing the "
+               "full sorted state dump after every event; the property predicate (scenes <-> lines, smallest free line, exact removal, placement, and: the periodic check declares a "
+               "service lost only after 12 s without a refresh, the keeper asks only below need, a client is told ok only for a live scene) "
+               "is evaluated on the implementation's own dumps.",
+    level_note="Trusted: Lean kernel; harness/driver line protocol; the overlay shim (read-only accessors + direct calls of onUpdate/"
+               "onServiceLost/World.OnServiceLost/PublicScenes.Update with a one-entry table); float32 busy weight abstracted to min(n,5000) "
+               "(validated on every adjacent pair 0..5101 and sampled pairs each run); Go map iteration and math/rand as arbitrary choices "
+               "(theorems quantify over every visiting order / draw; the driver accepts a SpawnScene/keeper result iff the model produces "
+               "it for SOME visiting order). The theorems are about the model; the differential run ties it to the code on sampled histories only.",
     lean_targets=["Cell2v.Props.C19", "modeld_c19"],
     driver="modeld_c19",
     driver_root="Cell2v.Driver.C19",
@@ -24,7 +41,11 @@ CONFIG = dict(
     required_theorems=["worldInv_reachable", "scenes_lines_bijection", "line_ids_unique_sorted", "new_line_is_mex",
                        "end_removes_exactly_one", "lost_removes_exactly_affected", "end_unknown_noop", "repeated_loss_idempotent",
                        "request_returns_same_cfg_live_or_none", "alloc_only_on_working", "alloc_prefers_least_busy",
-                       "alloc_ids_fresh", "failed_spawn_registers_nothing", "tick_removes_exactly_lost", "tick_any_order", "lost_any_order", "loss_only_after_silence"],
+                       "alloc_ids_fresh", "failed_spawn_registers_nothing", "tick_removes_exactly_lost", "tick_any_order", "lost_any_order", "loss_only_after_silence",
+                       "sysInv_reachable", "sys_history_admissible", "sys_ids_disciplined", "sys_request_none_iff_no_scene",
+                       "placement_over_histories", "spawn_registers_nothing", "failed_reply_registers_nothing", "reply_ok_registers_exactly",
+                       "keeper_spawns_only_below_need", "handler_places_like_spawn", "handler_ack_only_for_registered_scene",
+                       "keeper_overshoots_with_replies_outstanding", "late_confirm_registers_on_lost_service"],
     harness_pkg="./c19",
     go_flags=["-overlay=/verif/harness/c19/overlay/overlay.json"],
     mode="accept",
@@ -36,27 +57,33 @@ CONFIG = dict(
                      dict(name="seed3", env={"VERIF_N": "30000"}, seed_offset=2000, timeout=800)],
     },
     trivial=r"^(bad-op|r=ok S= L= V=.*|r=(lt|eq|gt) .*)$",
-    rule="op lines generated from one PRNG (VERIF_SEED): cases of 15-65 events over configurations {100,101,102} and services {1,2,3} (+ a never-"
+    rule="op lines generated from one PRNG (VERIF_SEED): cases of 15-65 events over one of five families of configuration ids per case ({100,101,102}; "
+         "{0,1,2}, {1,2,3}, {0,1,100}, {2,3,1000}: ids that coincide with line numbers, service numbers and scene ids) and services {1,2,3} (+ a never-"
          "refreshed 4): alloc (placement) and create-success for allocated ids (sometimes delayed or dropped), for own fresh ids, on unknown/lost "
          "services; ends of live / already ended / unknown ids; refreshes with loads 0, ties, 4999/5000/5001/7000/2^24-1; clock steps around the "
          "3000 ms threshold; periodic checks; silences of 1-5 rounds (the 4th declares the loss); manager- and world-level losses, repeated; "
-         "requests for populated / empty / unknown configurations; the keeper's creation path through the real SpawnScene (app.Request over a generated cluster view: request sent and later answered ok / with an error / never, or failing at once when the chosen service is not routable);  busy-weight comparisons (all adjacent pairs 0..5101 exhaustively); 1 in 8 cases "
+         "requests for populated / empty / unknown configurations; the keeper's creation path through the real SpawnScene (app.Request over a generated cluster view: request sent and later answered ok / with an error / never - also after the service was declared lost -, or failing at once when the chosen service is not routable); the remote AllocScene handler called directly (real Entry.AllocScene on the real scenem Service object, its waterfall tasks "
+         "run from the service's scheduler; the client's answer is observed: none / error at once / ok or error with the reply); rounds of the public-scene keeper "
+         "(the real PublicScenes.Update over a one-entry table, required numbers 0-5, with and without answers outstanding); busy-weight comparisons (all adjacent pairs 0..5101 exhaustively); 1 in 8 cases "
          "is malformed (create-success for a live id: compared with the model, not judged by the property). A case is non-trivial when scenes exist "
          "or a result other than ok is returned; distinct = distinct (op, observation) pairs",
     trusted_base=[
         "Lean 4.33.0 kernel; axioms of every property theorem audited on each run (allowed: propext, Classical.choice, Quot.sound)",
-        "hand-written model lean/Cell2v/Model/SceneM.lean tied to the Go code by the acceptance run of this check (harness/c19 + modeld_c19 accept)",
-        "overlay shim harness/c19/overlay/export_verif.go (package scenem, added at build time, /repo untouched): read-only accessors and direct calls of onUpdate / onServiceLost / World.OnServiceLost",
+        "hand-written model lean/Cell2v/Model/SceneM.lean (Mgr and, around it, Sys = manager + requests in flight + cluster view; the driver runs Sys.step/Sys.spawn/Sys.keeper/Sys.reply themselves) tied to the Go code by the acceptance run of this check (harness/c19 + modeld_c19 accept)",
+        "scenem Service object built by handler.NewService(); handler Entry.AllocScene called directly; scheduler tasks (waterfall) drained synchronously by the harness",
+        "overlay shim harness/c19/overlay/export_verif.go (package scenem, added at build time, /repo untouched): read-only accessors and direct calls of onUpdate / onServiceLost / World.OnServiceLost / PublicScenes.Update (after replacing the keeper's table by one entry)",
         "float32 GetBusyWeight (CPURate is never set) abstracted to the integer key min(n,5000); compared with the real function on every adjacent pair 0..5101 and on sampled pairs up to 2^24-1 in every run",
         "Go map iteration order and math/rand are arbitrary: the theorems quantify over every visiting order / draw, the driver accepts any least-busy working service and any line of the configuration",
         "SpawnScene requests are routed by the real app.Request/route/cluster directory over a generated view (UpdateClusterTopology); the scene service's answer is a ServiceResponse handed to the real Service.handleResponse",
         "harness canonicalisation (maps sorted, lines in slice order, keep-alive times as virtual idle milliseconds inside a testing/synctest bubble)",
     ],
     assumptions=[
-        "create-success events never name a scene id that is live (proved for ids issued by allocSceneId and confirmed at most once; uint64 wrap-around not modelled)",
-        "the keep-alive check is driven by calling the timer's callback (onUpdate) directly; the 1 s timer wiring of Start() and the public-scene keeper's own timer loop are not run (its creation path SpawnScene is: AllocScene + app.Request + reply callback)",
-        "the manager's NodeService is not spawned as an actor: its Receive is called directly with actor.Started / ServiceResponse and its sends are recorded by a stub actor context; request timeouts (C01) are not driven here, an unanswered request simply stays pending",
-        "scene counts reported by services are non-negative and below 2^24",
-        "scene id 0 is reserved (RandGetScene uses it for 'none'); allocSceneId starts at 1",
+        "manager-level theorems only: create-success events never name a scene id that is live. Proved (not assumed) for every system history, i.e. when scenes are registered through SpawnScene/the keeper and the reply callback (sys_history_admissible); i.e. when scenes are registered through SpawnScene / the keeper / the AllocScene handler and the reply callback - the only callers of OnSceneCreateSucc in the repository; the generated bare alloc / create events (arbitrary ids, services, duplicates) stay under the hypothesis; uint64 wrap-around of the id counter not modelled",
+        "an answer is delivered to the reply callback at most once per request (the request table entry is removed on the first answer: modelled and compared via len(ns.Handlers); the request layer itself is C01)",
+        "the keep-alive check and the keeper are driven by calling the timers' callbacks (onUpdate, PublicScenes.Update) directly; the 1 s timer wiring of Start() / PublicScenes.Start() is not run, and the keeper's table holds one public scene per round (several entries are visited in map order)",
+        "the scenem Service (handler.NewService: NodeService + Mgr) is not spawned as an actor: the AllocScene handler is called as a Go method with a stub actor context instead of through the api dispatcher, tasks posted to the service's scheduler are run by the harness after each op; its Receive is called directly with actor.Started / ServiceResponse and its sends are recorded by a stub actor context; request timeouts (C01) are not driven here, an unanswered request simply stays pending",
+        "scene counts reported by services are non-negative and below 2^24 (a negative count would win every placement)",
+        "service ids are non-empty (FindIdleService uses the empty string for 'none yet'; the model uses an option)",
+        "scene id 0 is reserved (RandGetScene uses it for 'none'); allocSceneId starts at 1 (proved: no system history produces id 0)",
     ],
 )
